@@ -35,6 +35,8 @@ func (Area) Exec(input string) string {
 		return c06.ExecHist(input)
 	case "e2e":
 		return execE2E(f)
+	case "esc":
+		return execEsc(f)
 	case "stress":
 		// uncontrolled contested-claim stress of the C11 slice (real goroutines, no yield points): the earlier
 		// claimant must keep a contested service at EVERY instant, not only between operations
@@ -218,6 +220,8 @@ func (Area) Gen(r *rand.Rand, tier string, emit func(string)) {
 		}
 		e2eLine(nm, as, bs)
 	}
+
+	genEsc(r, tier, emit)
 
 	g := func() []*string {
 		var gs []*string
